@@ -138,6 +138,7 @@ def fam_calls(rng):
     ops = [rng.choice(["ktime", "prandom"]) for _ in range(rng.randint(1, 3))]
     fmts = [rng.choice("IQqi") for _ in range(3)]
     nloc = rng.randint(0, 3)
+    shift = rng.randrange(6)
 
     def mk():
         m = ArrayMap()
@@ -157,8 +158,25 @@ def fam_calls(rng):
                 f = ktime if op == "ktime" else (
                     lambda e_: prandom(e_) & 0xffffffff)
                 tgt = f"a{k % 3}"
-                style = (k + len(ops)) % 4
-                if style == 0:
+                style = (k + len(ops) + shift) % 6
+                if style == 4 and op == "ktime":
+                    # the call itself is the left operand of a comparison,
+                    # a register of the program is live across it
+                    e.r3 = 9
+                    with ktime(e) > getattr(e, "a1"):
+                        setattr(e, tgt, 5)
+                    e.a0 = e.r3
+                elif style == 5 and op == "ktime":
+                    # ... with Else, and the packet is looked at afterwards
+                    with ktime(e) > getattr(e, "a1") as Else:
+                        setattr(e, tgt, 6)
+                    with Else:
+                        setattr(e, tgt, 7)
+                    with e.packetSize > 20 as pk:
+                        e.a2 = pk.pB[14]
+                elif style >= 4:
+                    setattr(e, tgt, f(e))
+                elif style == 0:
                     setattr(e, tgt, f(e))
                 elif style == 1:
                     setattr(e, tgt, getattr(e, "a0") + f(e) * 3)
